@@ -668,3 +668,87 @@ func init() {
 		}
 	}
 }
+
+// (v) two trigger sequences at the same time: two events, each triggering its
+// own rules, are processed on two workers; every rule action takes time. Each
+// event's own rules - and only those - run one after another in ascending
+// priority, and a failing first rule ends its own sequence only.
+func init() {
+	type variant struct {
+		name   string
+		na, nb int  // number of rules of event A / B
+		failA  bool // the first rule of A fails (fail-on-first-error on)
+	}
+	for _, v := range []variant{{"2+2", 2, 2, false}, {"3+2", 3, 2, false}, {"2+2-firstfails", 2, 2, true}} {
+		v := v
+		register(&Scenario{Prop: "C10", Name: "concurrent-trigger-sequences-" + v.name, Quick: 1, Thor: 2, FreeQuick: 1, FreeThor: 1, QuickShards: 2, ThorShards: 4,
+			Desc: fmt.Sprintf("events A and B trigger %d and %d rules of their own (priorities 1..n) and are processed at the same time on 2 workers, every action yields; oracle: the rules run for A are exactly A's in ascending priority (cut after a failing one), same for B", v.na, v.nb),
+			Make: func() (func(), func(e *vsched.Exec) (string, *vsched.Violation)) {
+				var log []string
+				body := func() {
+					log = nil
+					proc := engine.NewProcessor(2)
+					proc.SetFailOnFirstErrorInTriggerSequence(true)
+					add := func(kind string, n int, fail bool) {
+						for i := 1; i <= n; i++ {
+							i := i
+							proc.AddRule(&engine.Rule{Name: fmt.Sprintf("%s%d", kind, i), KindMatch: []string{kind}, ScopeMatch: []string{}, Priority: i,
+								Action: func(p engine.Processor, m engine.Monitor, e *engine.Event, tid uint64) error {
+									log = append(log, fmt.Sprintf("%s%d(%s)", kind, i, e.Name()))
+									vsched.Yield()
+									if fail && i == 1 {
+										return fmt.Errorf("fails")
+									}
+									return nil
+								}})
+						}
+					}
+					add("a", v.na, v.failA)
+					add("b", v.nb, false)
+					proc.Start()
+					proc.AddEvent(engine.NewEvent("A", []string{"a"}, nil), proc.NewRootMonitor(nil, nil))
+					proc.AddEvent(engine.NewEvent("B", []string{"b"}, nil), proc.NewRootMonitor(nil, nil))
+					vsched.Quiesce()
+					vsched.End()
+				}
+				check := func(e *vsched.Exec) (string, *vsched.Violation) {
+					switch e.Outcome {
+					case vsched.OutDeadlock, vsched.OutLivelock, vsched.OutHorizon:
+						return e.Outcome, &vsched.Violation{Key: e.Outcome + ":" + e.BlockedKey(), Msg: e.Outcome + ": " + e.Detail}
+					case vsched.OutPanic:
+						return "panic", &vsched.Violation{Key: "panic:" + firstLineOf(e.Detail), Msg: e.Detail + "\n" + e.PanicStk}
+					case vsched.OutFault:
+						return "fault", &vsched.Violation{Key: "fault:" + e.Detail, Msg: e.Detail}
+					}
+					per := map[string][]string{}
+					for _, l := range log {
+						ev := l[strings.Index(l, "(")+1 : len(l)-1]
+						per[ev] = append(per[ev], l[:strings.Index(l, "(")])
+					}
+					want := map[string]string{}
+					for _, x := range []struct {
+						ev, kind string
+						n        int
+						fail     bool
+					}{{"A", "a", v.na, v.failA}, {"B", "b", v.nb, false}} {
+						var w []string
+						for i := 1; i <= x.n; i++ {
+							w = append(w, fmt.Sprintf("%s%d", x.kind, i))
+							if x.fail {
+								break
+							}
+						}
+						want[x.ev] = strings.Join(w, ",")
+					}
+					for _, ev := range []string{"A", "B"} {
+						if got := strings.Join(per[ev], ","); got != want[ev] {
+							return "wrong", &vsched.Violation{Key: "trigger sequence of an event runs the wrong rules",
+								Msg: fmt.Sprintf("rules run for event %s: [%s], expected [%s] (log %v)", ev, got, want[ev], log)}
+						}
+					}
+					return "ok log=" + strings.Join(log, ","), nil
+				}
+				return body, check
+			}})
+	}
+}
